@@ -302,3 +302,94 @@ func configParamsCase(r *mon.Rng, idx int, shape string) {
 		}
 	}
 }
+
+// ------------------------------------------------------------------ lookups on the cell tree
+
+// proveLookups: tlb.ProveKeyInHashmap is the library's lookup that walks the
+// cell tree instead of a decoded object; "lookups on the dictionary agree
+// with that mapping" applies to it like to Get: a present key is found with
+// its value, an absent key is not found (any error counts as not found; the
+// proof it returns besides is C18's subject). holder is the cell of a
+// HashmapE (bit + reference to the root).
+func proveLookups(c *ctx, model *modelT, holder *tboc.Cell, what string, r *mon.Rng, fp string) bool {
+	sz := len(model.m)
+	if sz == 0 || sz > 300 || c.o == nil || c.o.prove == nil || len(holder.Refs()) != 1 {
+		return true
+	}
+	root := holder.Refs()[0]
+	es := model.sorted()
+	n := model.n
+	w := func(extra map[string]any) map[string]any {
+		m := c.wit(model, map[string]any{"dictionary": what, "boc": bocHex(holder)})
+		for k, v := range extra {
+			m[k] = v
+		}
+		return m
+	}
+	// present keys
+	for _, i := range r.Perm(sz)[:min(sz, 3)] {
+		var v dict.Value
+		var found, usable bool
+		if _, ok := guarded(c, model, "ProveKeyInHashmap("+classOf(what)+")", func() error { v, found, usable = c.o.prove(root, es[i].Key); return nil }); !ok {
+			return false
+		}
+		if !usable {
+			R.Count("prove_lookups_unavailable", 1)
+			return true
+		}
+		R.Eval(prefixFP("xv/present/"+what, fp+rbits.FiftHex(es[i].Key)))
+		R.Count("prove_lookups_present", 1)
+		if !found || !sameValue(v, es[i].Val) {
+			R.Violation(c.sig("prove-mismatch@present-key("+classOf(what)+")"), w(map[string]any{"key": rbits.FiftHex(es[i].Key), "found": found, "got": showValue(v), "want": showValue(es[i].Val)}))
+			return false
+		}
+	}
+	// absent keys: a present key with one bit flipped in the last position, among the last few bits (inside the
+	// leaf label when there is one), anywhere; plus what absentKeys draws
+	var absent [][]bool
+	seen := map[string]bool{}
+	add := func(k []bool) {
+		ks := dict.KeyString(k)
+		if _, in := model.m[ks]; !in && !seen[ks] {
+			seen[ks] = true
+			absent = append(absent, k)
+		}
+	}
+	free := c.o.dom.inner // only these trailing bits can vary for every key type
+	for t := 0; t < 4; t++ {
+		p := es[r.Intn(sz)].Key
+		for _, j := range []int{n - 1, n - 1 - r.Intn(min(free, 6)), n - 1 - r.Intn(free)} {
+			k := append([]bool(nil), p...)
+			k[j] = !k[j]
+			add(k)
+		}
+	}
+	present := make([][]bool, sz)
+	for i := range es {
+		present[i] = es[i].Key
+	}
+	for _, k := range absentKeys(r, model, c.o.dom, present, 3) {
+		add(k)
+	}
+	if len(absent) > 8 {
+		absent = absent[:8]
+	}
+	for _, k := range absent {
+		var v dict.Value
+		var found, usable bool
+		if _, ok := guarded(c, model, "ProveKeyInHashmap("+classOf(what)+")", func() error { v, found, usable = c.o.prove(root, k); return nil }); !ok {
+			return false
+		}
+		if !usable {
+			return true
+		}
+		R.Eval(prefixFP("xv/absent/"+what, fp+rbits.FiftHex(k)))
+		R.Count("prove_lookups_absent", 1)
+		if found {
+			R.Violation(c.sig("prove-mismatch@absent-key("+classOf(what)+")"), w(map[string]any{"key": rbits.FiftHex(k), "found_value": showValue(v), "note": "the key is not in the dictionary"}))
+			return false
+		}
+	}
+	holder.ResetCounters()
+	return true
+}
